@@ -25,7 +25,7 @@ class LibraryRaised(Exception):
         self.rec = rec
 
 
-def library_exception_info(e):
+def library_exception_info(e, pure_inputs=False):
     """(is_library, where): did the exception originate in pymablock code (not in the harness / SymC arithmetic)?"""
     import traceback
 
@@ -34,6 +34,12 @@ def library_exception_info(e):
     tb = traceback.extract_tb(e.__traceback__)
     inner = tb[-1]
     where = f"{inner.filename}:{inner.lineno} in {inner.name}"
+    if pure_inputs:
+        # inputs are plain sympy/numpy values (no SymC payload): an exception raised by a third-party routine the library
+        # called is the library's own as well
+        lib = [f for f in tb if f.filename.startswith(str(REPO))]
+        if lib:
+            return True, f"{lib[-1].filename}:{lib[-1].lineno} in {lib[-1].name} -> {where}"
     return inner.filename.startswith(str(REPO)), where
 
 
